@@ -477,23 +477,55 @@ func ruleEFF4(w *World) []Ob {
 	}
 	// (a)+(b): gate functions = non-owner library functions invoking mkdir/verify of a stage owner
 	nGates := 0
+	// owner methods that (transitively) change the filesystem: every entry into one of them is an entry into the stage,
+	// whatever it is called (a rollback / cleanup helper is gated like mkdir itself)
+	mutReach := map[*ssa.Function]bool{}
+	{
+		ds := directSites(p)
+		for fn, sites := range ds {
+			for _, s := range sites {
+				if s.eff == EffFSMutate {
+					mutReach[fn] = true
+				}
+			}
+		}
+		for changed := true; changed; {
+			changed = false
+			for _, fn := range p.ModFuncs {
+				if mutReach[fn] {
+					continue
+				}
+				for _, e := range succsOf(p, fn) {
+					if mutReach[e.to] {
+						mutReach[fn] = true
+						changed = true
+						break
+					}
+				}
+			}
+		}
+	}
 	for _, fn := range libFuncs(p) {
-		if stageOwners[recvTypeName(fn)] {
+		if stageOwners[recvTypeName(outermost(fn))] {
 			continue
 		}
-		if fn.Parent() != nil && !strings.HasPrefix(fn.Synthetic, "range-over-func") {
-			continue
-		}
+		anon := fn.Parent() != nil && !strings.HasPrefix(fn.Synthetic, "range-over-func")
 		fid := p.FuncID(fn)
 		num := numbered{}
 		allInstrs(fn, func(in ssa.Instruction) {
-			bc, ok := in.(*ssa.Call)
+			bc, ok := in.(ssa.CallInstruction)
 			if !ok {
 				return
 			}
+			_, plainCall := in.(*ssa.Call)
 			into := ""
 			for _, g := range p.ModCallees(bc) {
-				if stageOwners[recvTypeName(g)] && (fname(g) == "mkdir" || fname(g) == "verify") {
+				if !stageOwners[recvTypeName(g)] {
+					continue
+				}
+				if (fname(g) == "mkdir" || fname(g) == "verify") && plainCall && !anon {
+					into = fname(g)
+				} else if mutReach[g] {
 					into = fname(g)
 				}
 			}
@@ -505,8 +537,8 @@ func ruleEFF4(w *World) []Ob {
 			pos := p.InstrPos(bc)
 			// the stage entry may sit in a small helper that the route calls after growing: the conditions are then
 			// established at the helper's call sites (parameters mapped to the arguments there)
-			var gate func(f *ssa.Function, site *ssa.Call, args []ssa.Value, depth int) string
-			gate = func(f *ssa.Function, site *ssa.Call, args []ssa.Value, depth int) string {
+			var gate func(f *ssa.Function, site ssa.CallInstruction, args []ssa.Value, depth int) string
+			gate = func(f *ssa.Function, site ssa.CallInstruction, args []ssa.Value, depth int) string {
 				var grow *ssa.Call
 				allInstrs(f, func(in2 ssa.Instruction) {
 					c, ok := in2.(*ssa.Call)
@@ -514,6 +546,32 @@ func ruleEFF4(w *World) []Ob {
 						grow = c
 					}
 				})
+				if grow == nil && f.Parent() != nil && depth < 3 {
+					// a closure: the conditions are those at the place where the enclosing function calls, defers or
+					// starts it
+					var uses []ssa.CallInstruction
+					allInstrs(f.Parent(), func(in2 ssa.Instruction) {
+						ci, ok := in2.(ssa.CallInstruction)
+						if !ok {
+							return
+						}
+						if mc, isMC := resolve(ci.Common().Value).(*ssa.MakeClosure); isMC && mc.Fn == f {
+							uses = append(uses, ci)
+						}
+					})
+					if len(uses) == 0 {
+						return "the " + into + " stage is entered from a function literal whose call cannot be located"
+					}
+					for _, u := range uses {
+						if why := gate(f.Parent(), u, nil, depth+1); why != "" {
+							if _, isDefer := u.(*ssa.Defer); isDefer {
+								why += " (the function literal is deferred at " + p.InstrPos(u) + " and runs on every exit after that point)"
+							}
+							return why
+						}
+					}
+					return ""
+				}
 				if grow == nil {
 					callers := p.Callers(f)
 					if depth < 2 && f.Parent() == nil && (f.Object() == nil || !f.Object().Exported()) && len(callers) > 0 {
@@ -714,6 +772,61 @@ func ruleEFF4(w *World) []Ob {
 					}
 				}
 				if guardedNil(node, r) {
+					return
+				}
+				// the verdict was taken and found nil before this return (further, stricter checks may follow)
+				for _, vc := range vcalls {
+					if guardedNil(vc, r) {
+						return
+					}
+				}
+				// path form: every route from the entry to this return crosses the flag's false edge, the nil edge
+				// of a validatePath verdict, or the nil edge of the node itself
+				safeEdge := func(from *ssa.BasicBlock, k int) bool {
+					if len(from.Instrs) == 0 || len(from.Succs) != 2 {
+						return false
+					}
+					ifi, ok := from.Instrs[len(from.Instrs)-1].(*ssa.If)
+					if !ok {
+						return false
+					}
+					pol := k == 0
+					cond, p2 := flattenCond(ifi.Cond, pol)
+					if _, f, ok := fieldOfLoad(cond); ok && f == "enabledValidation" && !p2 {
+						return true
+					}
+					if tv, nonNil, ok := nilTest(ifi.Cond, pol); ok && !nonNil {
+						for _, vc := range vcalls {
+							if resolve(tv) == ssa.Value(vc) || sameVar(tv, vc) {
+								return true
+							}
+						}
+						if sameVar(tv, node) {
+							return true
+						}
+					}
+					return false
+				}
+				seen := map[*ssa.BasicBlock]bool{}
+				reached := false
+				var walk func(b *ssa.BasicBlock)
+				walk = func(b *ssa.BasicBlock) {
+					if seen[b] || reached {
+						return
+					}
+					seen[b] = true
+					if b == r.Block() {
+						reached = true
+						return
+					}
+					for k, s2 := range b.Succs {
+						if !safeEdge(b, k) {
+							walk(s2)
+						}
+					}
+				}
+				walk(fn.Blocks[0])
+				if !reached {
 					return
 				}
 				bad = append(bad, pp.InstrPos(r))
@@ -1436,6 +1549,12 @@ func ruleEFF6(w *World) []Ob {
 				if _, isGo := ci.(*ssa.Go); isGo {
 					isWorker = true
 				}
+			}
+			if isWorker {
+				// the pipeline's mkdirer tests and creates root by root inside its workers: the roots handled before
+				// (or next to) a pre-existing one are created although the call fails, and a root that another worker
+				// of the same call has just created (two roots of one name) counts as pre-existing
+				l.bad(fid, "every root is tested before any root is created", pos, "the existence test "+relFunc(test.Common().StaticCallee())+" covers only the root this worker holds ("+describeValue(targ)+") and runs while other workers create theirs: when one root exists already the others are created all the same (the filesystem is not left unchanged), and with two roots of the same name the second is reported as existing depending on the schedule, whereas the simple mode tests all roots first", "exists-all")
 			}
 			if !isWorker && inLoop(c) && reachableAfter(c, test) {
 				l.bad(fid, construct, pos, "the existence test runs inside the creation loop: roots handled before a pre-existing one are already created when the path-exists error is returned, so the filesystem is not left unchanged", "exists")
